@@ -260,7 +260,7 @@ func hostileMsg(t *rapid.T) Msg {
 		// the message is cut a few bytes short of its last value (negative = relative to the real length)
 		m.DeclLen = -rapid.IntRange(1, 5).Draw(t, "cutBy")
 	}
-	switch rapid.IntRange(0, 11).Draw(t, "msgClass") {
+	switch rapid.IntRange(0, 12).Draw(t, "msgClass") {
 	case 0, 1, 2: // command with generated args
 		m.Kind = "cmd"
 		m.Cmd = rapid.SampledFrom([]string{"connect", "createStream", "publish", "play", "releaseStream", "FCPublish", "deleteStream", "getStreamLength", "pause", "", "_result", "onStatus", "closeStream"}).Draw(t, "cmd")
@@ -287,6 +287,12 @@ func hostileMsg(t *rapid.T) Msg {
 		m.Type = rapid.Uint8().Draw(t, "anyType")
 		m.RawSeed = rapid.Uint32().Draw(t, "seed")
 		m.RawLen = rapid.SampledFrom([]int{0, 1, 2, 3, 4, 5, 10, 11, 12, 100, 5000}).Draw(t, "rawLen")
+	case 11: // media-sized audio / video / data bodies (several output chunks), any timestamp
+		m.Kind = "raw"
+		m.Type = rapid.SampledFrom([]uint8{9, 9, 8, 18}).Draw(t, "bigMediaType")
+		m.RawSeed = rapid.Uint32().Draw(t, "seed")
+		m.RawLen = rapid.SampledFrom([]int{4096, 4097, 8192, 8193, 9000, 12289, 20000, 70000}).Draw(t, "bigMediaLen")
+		m.Msid = 1
 	case 7: // aggregate with lying sub lengths
 		m.Kind = "raw"
 		m.Type = 22
@@ -322,6 +328,17 @@ func genCase(t *rapid.T) Case {
 	n := rapid.IntRange(0, 6).Draw(t, "nmsgs")
 	for i := 0; i < n; i++ {
 		c.Msgs = append(c.Msgs, hostileMsg(t))
+	}
+	if c.Stage == "publishing" && rapid.IntRange(0, 3).Draw(t, "leadingMedia") == 0 {
+		// well-framed media-sized messages first (before anything that may close the session): several output chunks,
+		// timestamps on both sides of the extended-timestamp threshold
+		var lead []Msg
+		for i := rapid.IntRange(1, 3).Draw(t, "nlead"); i > 0; i-- {
+			lead = append(lead, Msg{Kind: "raw", Type: rapid.SampledFrom([]uint8{9, 9, 8, 18}).Draw(t, "leadType"), RawSeed: rapid.Uint32().Draw(t, "leadSeed"),
+				RawLen: rapid.SampledFrom([]int{1, 4096, 4097, 8192, 8193, 9000, 12289, 20000, 70000}).Draw(t, "leadLen"),
+				Csid: rapid.SampledFrom([]int{4, 6, 5}).Draw(t, "leadCsid"), Msid: 1, Ts: tsGen.Draw(t, "leadTs")})
+		}
+		c.Msgs = append(lead, c.Msgs...)
 	}
 	nf := rapid.SampledFrom([]int{0, 0, 0, 1, 2, 3}).Draw(t, "nflips")
 	for i := 0; i < nf; i++ {
@@ -513,6 +530,9 @@ func classify(c Case) (bool, []string) {
 			}
 		} else {
 			labels = append(labels, fmt.Sprintf("type:%d", bucketType(m.Type)))
+		}
+		if m.Kind == "raw" && m.RawLen > 8192 && m.Ts >= 0xFFFFFF && (m.Type == 8 || m.Type == 9 || m.Type == 18) && c.Stage == "publishing" && reached {
+			labels = append(labels, "published-media>2-chunks+ext-ts")
 		}
 		if m.DeclLen < 0 {
 			labels = append(labels, "cut-short")
